@@ -268,4 +268,21 @@ example : ∃ t, displayTimestamp 0 = .ok t ∧ parseTimestamp t = some (.ok 0) 
 -- a negative sub-millisecond part is dropped silently instead
 example : ∃ t, displayTimestamp (-1) = .ok t ∧ parseTimestamp t = some (.ok 0) := ⟨_, rfl, by decide⟩
 
+/-! ### f64 (modelled subset: integer-valued doubles below 2^53, ±0, ±inf, NaN) and time zones
+
+No general theorem: the subset model is validated differentially; these are kernel-checked
+instances (100.0, −(2^53−1), −0.0, −inf; 0.1 is outside the subset). -/
+example : (displayF64? 0x4059000000000000).bind parseF64? = some (.ok 0x4059000000000000) := by decide
+example : (displayF64? 0xc33fffffffffffff).bind parseF64? = some (.ok 0xc33fffffffffffff) := by decide
+example : (displayF64? 0x8000000000000000).bind parseF64? = some (.ok 0x8000000000000000) := by decide
+example : (displayF64? 0xfff0000000000000).bind parseF64? = some (.ok 0xfff0000000000000) := by decide
+example : displayF64? 0x3fb999999999999a = none := by decide
+
+/-- NaN prints as `NaN` and parses to the canonical NaN, which is `==` to every NaN -/
+theorem f64_nan_roundtrip (b : UInt64) (h : fIsNaN b = true) :
+    ∃ t c, displayF64? b = some t ∧ parseF64? t = some (.ok c) ∧ DV.eq (.f64 c) (.f64 b) = true := by
+  refine ⟨[78, 97, 78], 0x7ff8000000000000, by simp [displayF64?, h], by decide, ?_⟩
+  have hc : fIsNaN 0x7ff8000000000000 = true := by decide
+  simp [DV.eq, fkey, h, hc]
+
 end RlModel
